@@ -779,16 +779,30 @@ bool exec_str_b(Ctx &c, const Op &op) {
         return true;
     }
     case S_TO_BUFFER_INTO: {
-        unsigned which = op.c % 6;
-        StrObj *x = which == 0 ? pick(v, op.a) : pick_str_wf(c, op.a);
+        unsigned which = op.c % 8, vmode = (op.c >> 4) % 3;      // 6, 7: the deprecated (buffer, utf8, utf_validation_t) spelling, UTF-8 / Latin-1
+        static const ST::utf_validation_t VM[] = {ST::check_validity, ST::substitute_invalid, ST::assume_valid};
+        StrObj *x = which == 6 ? pick_str_nohazard(c, op.a) : which == 0 ? pick(v, op.a) : pick_str_wf(c, op.a);      // (6: a malformed receiver if the pool has one)
         if (!x) { c.skipped = true; return true; }
         Scalars sc; if (which) decode_utf8_strict(x->model, sc);
         bool lat_ok = true; std::string lat; for (char32_t ch : sc) { if (ch >= 0x100) { lat_ok = false; lat += '?'; } else lat += (char)ch; }
-        note_sig(c, op, std::string("obj=") + cl(x) + ",which=" + std::to_string(which));
+        note_sig(c, op, std::string("obj=") + cl(x) + ",which=" + std::to_string(which) + (which >= 6 ? ",mode=" + std::to_string(vmode) : std::string()));
         c.budget_bytes = x->model.size() * 8;
         as_const(x);
         ExcKind ex;
         switch (which) {
+        case 6: case 7: {
+            BufObj<char> *d = pick(c.b8, op.b); if (!d) { c.skipped = true; return true; }
+            as_target(d); note_mutating(c, d);
+            _Pragma("GCC diagnostic push") _Pragma("GCC diagnostic ignored \"-Wdeprecated-declarations\"")
+            ex = run_sut(c, op, [&] { x->p()->to_buffer(*d->p(), which == 6, VM[vmode]); });
+            _Pragma("GCC diagnostic pop")
+            // UTF-8: a copy of the stored bytes, whatever they are (today the mode is ignored; a version that honoured it could only throw
+            // for a malformed receiver in checking mode - then the caller's buffer must be what it was). Latin-1: as the (bool, bool) spelling.
+            bool malformed = !strict_utf8(x->model.data(), x->model.size());
+            unsigned allowed = which == 6 ? ((malformed && vmode == 0) ? bit(EX_UNICODE) : 0) : ((vmode != 1 && !lat_ok) ? bit(EX_UNICODE) : 0);
+            if (settle(c, op, ex, allowed)) { if (which == 6 && malformed && vmode == 1) d->st = M_ADOPT; else d->model = which == 6 ? x->model : lat; d->moved_from = false; }
+            break;
+        }
         case 0: case 4: case 5: {
             BufObj<char> *d = pick(c.b8, op.b); if (!d) { c.skipped = true; return true; }
             as_target(d); note_mutating(c, d);
